@@ -550,6 +550,7 @@ func (s *Scheduler) Wait(ctx context.Context) error {
 	ctx = verifWaitSelect(s, ctx)
 	select {
 	case <-ctx.Done():
+		verifWaitTookDone(s)
 		return ctx.Err()
 	case <-s.finishedc: // wait for Scheduler Loop to exit
 		err := s.err
